@@ -219,6 +219,7 @@ func runC01(env *core.Env) {
 		})
 		env.Logf("scenario %s done: %v", sc.Name, st.PerScenario[sc.Name])
 	}
+	st.PerScenario["io-error-phase"] = faultPhase(env, "C01", f.SA, []crashCmd{{"claim", claimReq("a1")}, {"claim--epic", claimReq("a1", "--epic", f.E1)}})
 	finishSched(env, st, "every interleaving of the hooked shared-state steps of 2-4 real claim processes (alone and with a put-back, dependency-finishing, creating, pruning or compacting writer) up to the preemption bound; oracle: serial equivalence on the real implementation in an order consistent with real time + direct claim invariants")
 }
 
